@@ -43,11 +43,11 @@ Definition kstep (c : kcmd) (m : sstore) : sstore * reply :=
   | KCappend k v =>
       if negb (key_ok k) then (m, RErr)
       else let old := match aget bytes_eqb k m with Some b => b | None => [] end in
-           if max_value_size <? blen old + blen v then (m, RErr)
-           else match aget bytes_eqb k m, v with
-                | Some _, [] => (m, RInt (blen old))
-                | _, _ => (aput bytes_eqb k (old ++ v) m, RInt (blen old + blen v))
-                end
+           match aget bytes_eqb k m, v with
+           | Some _, [] => (m, RInt (blen old))
+           | _, _ => if max_value_size <? blen old + blen v then (m, RErr)
+                     else (aput bytes_eqb k (old ++ v) m, RInt (blen old + blen v))
+           end
   | KCsetrange k off v =>
       let old := match aget bytes_eqb k m with Some b => b | None => [] end in
       match v with
